@@ -28,6 +28,12 @@ partial def c18Line (line : String) : String :=
     | _, _ => "bad-op"
   | ["args", _, _, _, _, _] => "ok"
   | ["mergeblk", _, _, _, _, _] => "ok"
+  -- default execution header + all-zero payload: skipped before the merge in bellatrix only; from capella on
+  -- process_execution_payload always runs and refuses it (Model.payloadStepRuns)
+  | ["premerge", _, _, _, _, _, fork] =>
+    match Fault.forkOfName fork with
+    | some fk => if Fault.payloadStepRuns fk false then "err" else "ok calls=0"
+    | none => "bad-op"
   | ["cancel", _, _, _, _, _, k, n] =>
     match k.toNat?, n.toNat? with
     | some k, some n => observe ⟨some k, fun _ => .valid⟩ n 0
